@@ -66,7 +66,8 @@ func (rn *runner) ask(k int, name, req string) *report {
 
 func (rn *runner) bytesCase(k int, c *codec, b []byte) *report {
 	rep := rn.ask(k, c.name, "B "+c.name+" "+hx.Hex(b))
-	if c.modelled && len(b) <= maxModelInput {
+	if c.modelled && len(b) <= maxModelInput && !(strings.HasPrefix(c.name, "message") && len(b) > 0 && b[0]&1 != 0) {
+		// (compressed frames go to the real decoder only: LZ4 is not modelled)
 		rn.o.Line("dec "+c.name+" "+hx.Hex(b), rep.obs)
 	}
 	switch {
